@@ -6,7 +6,7 @@ from lib.coqterm import cbool, cbytes, clist, copt, cN, hx, unhx
 
 ID = "C30"
 QUICK_N = 2000
-THOROUGH_N = 60000
+THOROUGH_N = 16000
 SHARD = 300
 RULE = ("schedules of <= 14 QUIC stream events (data with/without FIN, empty FIN, reset, stop-sending, connection close) "
         "from both sides over <= 12 small stream ids of all four classes plus ids near 2^62, ~65% sent by the initiator "
